@@ -12,7 +12,7 @@
 From Coq Require Import List NArith Bool Arith String.
 From Verif.Common Require Import Packet PolicyRef Ipt.
 From Verif.C08 Require Import Model Spec ProofsFilter.
-From Verif.C09 Require Import Model Spec ProofsMarks ProofsPolicy ProofsGroup ProofsEndpoint ProofsEquiv ProofsStaged ProofsModel.
+From Verif.C09 Require Import Model Spec ProofsMarks ProofsPolicy ProofsGroup ProofsEndpoint ProofsRaw ProofsEquiv ProofsStaged ProofsModel.
 Import ListNotations.
 Open Scope N_scope.
 
@@ -57,6 +57,20 @@ Theorem c09_forward_verdict : forall c e ec v name tiers profiles f p,
     (run_chain (3 + f) (render_endpoint ec c v name tiers profiles) e name p) = true.
 Proof. exact forward_verdict_model. Qed.
 Print Assumptions c09_forward_verdict.
+
+(* RAW (untracked) AND MANGLE (pre-DNAT) CHAINS of host endpoints (chainTypeUntracked / chainTypePreDNAT): the same
+   tier loop without end-of-tier default and without profiles: the first tier whose enforced policies allow or
+   deny decides (an untracked allow is NOTRACK + RETURN with the accept mark); otherwise the chain ends without a
+   verdict and the filter table decides (`expected` for TUntracked / TPreDNAT). *)
+Theorem c09_raw_verdict : forall c e ec v name tiers profiles f p,
+  marks_ok c = true -> (ec_type ec = TUntracked \/ ec_type ec = TPreDNAT) ->
+  NoDup (map fst (render_endpoint ec c v name tiers profiles)) ->
+  (forall r, In r (all_rules tiers profiles) -> rule_ok c e r) ->
+  wf_packet p -> pk_ver p = v -> entry_mark_ok c p = true ->
+  ok_result ec c (expected ec (e_sets e) tiers profiles p) p
+    (run_chain (3 + f) (render_endpoint ec c v name tiers profiles) e name p) = true.
+Proof. exact raw_verdict_model. Qed.
+Print Assumptions c09_raw_verdict.
 
 (* rule_ok is C08's theorem: for the repaired renderer for every rule of C08's domain ... *)
 Theorem c09_rule_ok_fixed : forall c e r,
